@@ -567,6 +567,11 @@ PROPS["C10"] = dict(
           unwindset_rules=[("from_occupancy", r"occupancy\.pop\(\)", 4, 0)], desc="colored_attacks "
           "and is_check give the same answers on a board, on a clone taken before any query and on a clone taken after (fresh computation "
           "vs. copied cache)", functions=["Board::{attack_map,colored_attacks,is_check,new,clone}"], timeout=1800),
+        K("c10", "c10_successor_answers_are_fresh", kind="bounded", bound="<= 2 pieces per kind and colour; spike attack function; every move class", tier="experimental",
+          unwindset_rules=[("from_occupancy", r"occupancy\.pop\(\)", 3, 0)],
+          desc="the board of the position reached by State::by_performing_move answers colored_attacks / colored_pawn_attacks / is_check exactly as a "
+          "board built from scratch from the successor's placement, whatever had been asked of (and cached in) the parent before the move",
+          functions=["State::by_performing_move", "Board::{new,attack_map,colored_attacks,colored_pawn_attacks,is_check}"], timeout=3600, heavy=True, mem_gb=24),
         K("c10", "c10_board_queries_contract", tier="thorough", heavy=True, kind="bounded", bound="<= 5 pieces per kind and colour; spike attack function", desc="colored_attacks / "
           "colored_pawn_attacks == from_occupancy of the board's fields; is_check through the real cached maps; answers independent of "
           "query order and of cloning before/after", functions=["Board::{attack_map,colored_attacks,colored_pawn_attacks,is_check,new,clone}"], timeout=1800),
